@@ -130,6 +130,11 @@ func (idx *RoaringMetadataIndex) Add(node MetadataNode) error {
 	docID := node.ID()
 	metadata := node.Metadata()
 
+	// Validate first so that a rejected document leaves no trace
+	if err := validateMetadata(metadata); err != nil {
+		return err
+	}
+
 	idx.allDocs.Add(docID)
 
 	for key, value := range metadata {
@@ -150,6 +155,18 @@ func (idx *RoaringMetadataIndex) Add(node MetadataNode) error {
 		}
 	}
 
+	return nil
+}
+
+// validateMetadata reports the first value whose type the metadata index cannot store.
+func validateMetadata(metadata map[string]interface{}) error {
+	for key, value := range metadata {
+		switch value.(type) {
+		case int, int64, float64, string, bool:
+		default:
+			return fmt.Errorf("unsupported type for key %s: %T", key, value)
+		}
+	}
 	return nil
 }
 
